@@ -72,9 +72,10 @@ impl Subscriber for SubscriberService {
             .topic_manager
             .get_topic(&topic_name)
             .map_err(|e| match e {
-                GetTopicError::DoesNotExist => {
-                    Status::not_found(format!("The topic {} does not exist", &topic_name))
-                }
+                GetTopicError::DoesNotExist => Status::not_found(format!(
+                    "The topic {} does not exist",
+                    parser::echo(&topic_name.to_string())
+                )),
                 GetTopicError::Closed => conflict(),
             })?;
 
@@ -85,7 +86,7 @@ impl Subscriber for SubscriberService {
             .map_err(|e| match e {
                 CreateSubscriptionError::AlreadyExists => Status::already_exists(format!(
                     "The subscription {} already exists",
-                    &subscription_name
+                    parser::echo(&subscription_name.to_string())
                 )),
                 CreateSubscriptionError::MustBeInSameProjectAsTopic => Status::invalid_argument(
                     "The subscription must be in the same project as the topic",
@@ -697,6 +698,6 @@ fn conflict() -> Status {
 fn subscription_not_found(subscription_name: &SubscriptionName) -> Status {
     Status::not_found(format!(
         "Resource not found (resource={}).",
-        &subscription_name.subscription_id()
+        parser::echo(&subscription_name.subscription_id())
     ))
 }
